@@ -354,7 +354,7 @@ def gen_case(rng, family, kind, shape_name, shape):
         init = [g for g in init if g[0] != "rx"] or [["x", 0]]
         if family == "classical":
             fresh -= {q for g in init for q in g[1:]}
-    n_callers = rng.choice([1, 2, 2, 3, 4]) if "B" in shape else 1
+    n_callers = rng.choice([1, 1, 2, 2, 3, 4]) if "B" in shape else 1
     callers = []
 
     def gen_call(count):
@@ -374,11 +374,11 @@ def gen_case(rng, family, kind, shape_name, shape):
 
     for _ in range(n_callers):
         cl = gen_call(rng.choice([1, 1, 2, 3, 4]) if rng.random() < 0.97 else 0)
-        if n_callers == 1 and rng.random() < 0.45:
+        if n_callers == 1 and rng.random() < (0.85 if "B" in shape else 0.4):
             # the ONE evaluator / wrapper stack is used again: after a call whose primitive job failed (flaky backend), and
             # with other circuit counts (1, then 5, then 1); every ordinary call must return its own objective
             steps = []
-            if rng.random() < 0.65:
+            if rng.random() < (0.85 if "B" in shape else 0.6):
                 steps.append(dict(gen_call(rng.choice([1, 2, 3])), fail=True))
             steps.append(gen_call(rng.choice([1, 2, 5])))
             steps.append(gen_call(rng.choice([1, 1, 3])))
